@@ -84,12 +84,6 @@ def sj_chars(b):
     return out
 
 
-def be_order_safe(key):
-    """the model orders big-endian label buckets by ENCODED bytes, the library by String (code points); the two orders
-    agree on ASCII, half-width katakana, hiragana and katakana (Model/BinFormat.v, a decision of the bin-archive core)"""
-    return all(len(c) == 1 or c[0] in (0x82, 0x83) for c in sj_chars(key))
-
-
 def msg_tok(fmt, m):
     return L(m) if fmt == "U" else B(m)
 
@@ -518,14 +512,6 @@ class C06(PropertyCheck):
             return True          # library-only stream (A-codec); the model works on encoded strings
         if kind in ("txtf", "txta"):
             return txtfile.agree_text(case.line.split()[1], impl_out, model_out)
-        if kind == "txt" and impl_out != model_out:
-            fmt, endian, title, entries = parse_case(case.line)
-            if endian == "B" and not all(be_order_safe(k) for (k, _) in entries) and impl_out.startswith("ser=ok:") and model_out.startswith("ser=ok:"):
-                # label-table order of names outside the order-agreeing domain: compare everything but that order
-                (si, pi), (sm, pm) = (x[len("ser=ok:"):].split(" | parse=", 1) for x in (impl_out, model_out))
-                bi, bm = unB(si), unB(sm)
-                dsz = struct.unpack(">I", bi[4:8])[0]
-                return pi == pm and len(bi) == len(bm) and bi[:0x20 + dsz] == bm[:0x20 + dsz]
         return impl_out == model_out
 
     def nontrivial(self, case, impl_out):
@@ -589,9 +575,9 @@ MANIFEST = dict(
     note=TB + "Domain: the theorems quantify over ENCODED strings; read on Rust Strings they speak about strings s with decode(encode s) = s "
               "(lossless; checked per string by the harness). For keys, the title and legacy messages this EXCLUDES U+00A5, U+203E and U+2212, "
               "which encoding_rs' Shift-JIS encoder accepts (5C, 7E, 81 7C) but which come back as U+005C, U+007E, U+FF0D (the round trip holds for "
-              "them only up to decode o encode); UTF-16 messages have no exclusion. Big-endian archives: the byte-exact comparison of the label "
-              "table is restricted to keys whose Shift-JIS byte order equals their String order (see notes; the order of BE label names is "
-              "handled by a separate work item). "
+              "them only up to decode o encode); UTF-16 messages have no exclusion. Big-endian archives: the library orders the label table by the keys as Strings; the model takes the "
+              "sort key as a parameter (TextFormat.serialize kf), every theorem holds for every kf, and the run passes the library's own decoding of every "
+              "key (case-line group K), so the byte-exact comparison covers all keys (kanji, Greek, mixed). "
               "All C06 theorems are premise-free (hypotheses: distinct keys, NUL-free encoded text, valid UTF-16, bytes < 256, image < 2^32). "
               "Modelled, not verified: encoding_rs Shift-JIS (A-codec, checked by the harness per case and by the sweep; the history theorem uses it only on "
               "ASCII, where it is the identity), IndexMap, Vec (A-std); encode_utf16 / the UTF-16 decoder are modelled AND proved inverse, and tied to the library "
